@@ -7,7 +7,7 @@
     universally quantified functions; their encoders only have to satisfy the round-trip hypotheses
     written in each statement (instantiated at the end of the file). *)
 From Coq Require Import List ZArith String Lia.
-From Thunder Require Import Lib.Json Args.Model Args.Spec Args.Codec Args.Proofs Args.ProofsReject Args.ProofsInst Args.ProofsSubst Args.ProofsTotal Gen.ArgParsers Args.Table.
+From Thunder Require Import Lib.Json Args.Model Args.Spec Args.Codec Args.Proofs Args.ProofsReject Args.ProofsInst Args.ProofsSubst Args.ProofsTotal Args.ProofsDoc Gen.ArgParsers Args.Table.
 Import ListNotations.
 Local Open Scope Z_scope.
 
@@ -68,6 +68,25 @@ Theorem transport_equivalence :
     run_args b64 tdec xdec t defs vars args' = run_args b64 tdec xdec t defs vars args.
 Proof. exact ProofsSubst.transport_equivalence. Qed.
 Print Assumptions transport_equivalence.
+
+(** Parse's order (parser.go 382-452): the variable definitions and defaults are processed first, then the
+    bodies of the named fragments, then the operation - both with the defaulted variable map.  Hence every
+    field occurrence the operation reaches, directly or through inline and named fragments at any depth,
+    carries the arguments [args_to_json] computes from its literals under the *defaulted* variables ... *)
+Theorem arguments_independent_of_place :
+  forall vars vars' (d : doc) (p : pdoc) (fuel : nat),
+    apply_defaults (d_defs d) vars vars = Ok vars' -> parse_doc vars d = Ok p ->
+    Forall2 (occ_rel vars') (flat_map (sfields fuel (d_frags d)) (d_body d)) (doc_fields fuel p).
+Proof. exact ProofsDoc.arguments_independent_of_place. Qed.
+Print Assumptions arguments_independent_of_place.
+
+(** ... and a request with the field in the operation body, in a named fragment or in an inline fragment
+    is the same request (all the theorems about [run_args] apply to the three places). *)
+Theorem place_does_not_matter :
+  forall b64 tdec xdec t defs vars args (pl : place),
+    run_doc b64 tdec xdec t vars (doc_at pl defs "f"%string args) = run_args b64 tdec xdec t defs vars args.
+Proof. exact ProofsDoc.run_doc_place. Qed.
+Print Assumptions place_does_not_matter.
 
 (** End to end for one field: Parse (defaults, argsToJson) followed by the ParseArguments call of
     PrepareQuery hands the resolver exactly the struct that was written as literals ... *)
